@@ -29,6 +29,7 @@ _add("C07", "bounded model checking: per Coxeter matrix (125 rank-3 + rank-2/4 f
      tech="SMT bounded model checking (z3 QF_UFLIA) of the real automaton tables with a symbolic word against an exact cyclotomic-arithmetic oracle; witness words replayed with FSA.accepts",
      note="Coxeter matrices are enumerated configurations; nothing is claimed beyond the word-length bound; oracle = exact integer arithmetic + Tits faithfulness", eng="smtbmc")
 _add("C11", "bounded symbolic verification: operation histories of depth 1-2 (3 for projective polygons in thorough) over {copy, reconstruct, apply, reshape, flatten, index, setitem, stack, combine, astype} on projective/hyperbolic polygons, segments, tangent vectors with symbolic entries; stored derived data vs recomputed (projectively); read-only queries leave objects and caller arrays unchanged")
+_add("C04", "bounded symbolic verification over enumerated composite-shape configurations (rank 0-2, sizes 1-2 quick; sizes up to 3 and rank 3 thorough) with all entries distinct symbols: matrix_product, apply in three broadcast modes, vectorised point / segment / polygon / SL(2) operations and restructuring compared unit by unit")
 NA = {}
 def main():
     checks = []
